@@ -151,9 +151,6 @@ Definition parse_value (simple_types : bool) (v : val) : lres :=
   | _ => LVal v
   end.
 
-(* int -> float raises OverflowError from 2^1024 - 2^970 on (round-half-even to the largest double) *)
-Definition float_overflows (z : Z) : bool := Z.leb (2 ^ 1024 - 2 ^ 970) (Z.abs z).
-
 (* ---- leaf types --------------------------------------------------------------------------- *)
 Inductive leaf := LfStr | LfInt | LfFloat | LfBool | LfNone.
 
@@ -181,12 +178,7 @@ Definition adapt_leaf (k : leaf) (v : val) : ares :=
   match loaded with
   | AErr e => AErr e
   | AOk v1 =>
-      (* float(val); an int beyond the float range (OverflowError) is reported as an unexpected value (31e6cde): the
-         value stays an int and fails the isinstance test below *)
-      let v2 := match k, v1 with
-                | LfFloat, VInt z => if float_overflows z then v1 else VFloat (float_of_int z)
-                | _, _ => v1
-                end in
+      let v2 := match k, v1 with LfFloat, VInt z => VFloat (float_of_int z) | _, _ => v1 end in
       if isinstance_leaf k v2 then AOk v2 else AErr ErrValue
   end.
 
